@@ -55,6 +55,22 @@ MUTANTS = [
     ("c12-long-algorithm-not-lowercased", "C12", "caught", [(WK, "            self.algorithms.insert(copy_as_lowercase(algorithm), Cow::Owned(value));\n", "            let key = if algorithm.len() > 8 { SmallString::from(algorithm) } else { copy_as_lowercase(algorithm) };\n            self.algorithms.insert(key, Cow::Owned(value));\n")]),
     ("c12-sort-by-uppercased-name", "C12", "caught", [(WK, SORT, "        algorithms.sort_unstable_by_key(|a| a.0.to_uppercase());\n")]),
     ("c12-duplicate-check-dropped", "C12", "silent", [(WK, "            if algorithms.insert(algorithm, Cow::Borrowed(bytes)).is_some() {\n                // Duplicate algorithm.\n                return Err(ParseError::InvalidQualifier);\n            }\n", "            algorithms.insert(algorithm, Cow::Borrowed(bytes));\n")]),
+    ("c12-btreemap-instead-of-hashmap", "C12", "silent", [
+        (WK, "use std::collections::hash_map::Iter as HashMapIter;\n", "use std::collections::btree_map::Iter as HashMapIter;\nuse std::collections::BTreeMap;\n"),
+        (WK, "#[cfg(not(purl_verif))]\nuse std::collections::HashMap;\n", ""),
+        (WK, "#[cfg(purl_verif)]\nuse crate::verif::HashMap;\n", ""),
+        (WK, "    algorithms: HashMap<SmallString, Cow<'a, str>>,\n", "    algorithms: BTreeMap<SmallString, Cow<'a, str>>,\n"),
+        (WK, "        let mut algorithms =\n            HashMap::with_capacity(value.chars().filter(|c| *c == ',').count() + 1);\n", "        let mut algorithms = BTreeMap::new();\n"),
+    ]),
+    ("c16-display-via-intermediate-string", "C16", "silent", [(FO, "        let package_type = self.package_type().package_type();\n\n        if !is_valid_package_type(&package_type) {", "        let rendered = Rendered(self).render()?;\n        return f.write_str(&rendered);\n    }\n}\n\nstruct Rendered<'a, T>(&'a GenericPurl<T>);\n\nimpl<T: PurlShape> Rendered<'_, T> {\n    fn render(&self) -> Result<String, fmt::Error> {\n        use fmt::Write;\n        let mut out = String::new();\n        let f = &mut out;\n        let this = self.0;\n        let package_type = this.package_type().package_type();\n\n        if !is_valid_package_type(&package_type) {"),
+        (FO, "        if let Some(namespace) = self.namespace() {", "        if let Some(namespace) = this.namespace() {"),
+        (FO, "utf8_percent_encode(self.name(), PURL_PATH_SEGMENT)", "utf8_percent_encode(this.name(), PURL_PATH_SEGMENT)"),
+        (FO, "        if let Some(version) = self.version() {", "        if let Some(version) = this.version() {"),
+        (FO, "        if !self.parts.qualifiers.is_empty() {\n            let mut prefix = '?';\n            for (k, v) in &self.parts.qualifiers {", "        if !this.parts.qualifiers.is_empty() {\n            let mut prefix = '?';\n            for (k, v) in &this.parts.qualifiers {"),
+        (FO, "        if let Some(subpath) = self.subpath() {", "        if let Some(subpath) = this.subpath() {"),
+        (FO, "            write!(f, \"#{}\", utf8_percent_encode(subpath, PURL_FRAGMENT))?;\n        }\n\n        Ok(())\n", "            write!(f, \"#{}\", utf8_percent_encode(subpath, PURL_FRAGMENT))?;\n        }\n\n        Ok(out)\n"),
+    ]),
+    ("c14-retain-before-name-check", "C14", "silent", [(BU, NAMECHECK + "\n        // Empty qualifiers are the same as unset qualifiers.\n        self.parts.qualifiers.retain(|_, v| !v.is_empty());\n", "        // Empty qualifiers are the same as unset qualifiers.\n        self.parts.qualifiers.retain(|_, v| !v.is_empty());\n\n" + NAMECHECK)]),
     ("c12-stable-sort", "C12", "silent", [(WK, SORT, "        algorithms.sort_by(|a, b| a.0.cmp(&b.0));\n")]),
     ("c12-sort-by-key", "C12", "silent", [(WK, SORT, "        algorithms.sort_by_key(|a| a.0.clone());\n")]),
     ("c12-no-presizing", "C12", "silent", [(WK, "            HashMap::with_capacity(value.chars().filter(|c| *c == ',').count() + 1);\n", "            HashMap::with_capacity(0);\n")]),
